@@ -36,6 +36,34 @@ def pytest_configure(config):
         elif n == 'c11':
             from vmon.checks import c11
             cbs.append((res, c11.step_contract(res, key)))
+        elif n == 'c10':
+            import numpy as np
+            from vmon.checks import c10
+            dassh_, mf = c10._mf()
+            orig_apply = mf.map_across_gap
+            rng = np.random.default_rng(10)
+
+            def post_map(args, kwargs, result, tok, res=res):
+                try:
+                    M, N = result
+                    # unit tests feed toy arrays that are not two tilings of
+                    # a hexagon's perimeter: the contract's precondition
+                    c = c10.mesh_cells(args[0], args[1])
+                    if not (np.all(np.diff(c['xr']) > 0)
+                            and np.all(np.diff(c['xg']) > 0)
+                            and c['xg'][-1] < c['P'] and c['n_d'] >= 6
+                            and c['n_g'] >= 6 and np.all(c['w_d'] > 0)
+                            and np.all(c['w_g'] > 0)):
+                        res.count('skipped_precondition_not_a_hex_tiling')
+                        return
+                    c10.check_maps(res, args[0], args[1], M, N, rng,
+                                   orig_apply,
+                                   {'region': 'n_d=6' if len(args[0]) == 8
+                                    else 'rodded'}, 'repo_tests')
+                    res.count('H0_hooked_map_asm2gap_calls')
+                except Exception as e:
+                    res.count('monitor_exception:' + type(e).__name__)
+            hk.wrap(mf, '_map_asm2gap', post=post_map)
 
     def guarded(res, fn, rec):
         try:
